@@ -13,6 +13,7 @@ From Soy Require Import Model.Ast Model.Token Model.Lexer Model.Parser Generated
 From Soy Require Import Spec.TextBody Proofs.LexTokens Proofs.LexPrintTop Proofs.LexBodyLit Proofs.LexBodyMain Proofs.BodyCmdMain.
 From Soy Require Import Spec.TextMix Proofs.BodyMixMain Proofs.LexBodySeg Proofs.LexBodyMix Proofs.ExprParserRules Proofs.ParseBodyText Proofs.BodyStretchAny.
 From Soy Require Import Spec.TextTemplate Proofs.ParserProofs Proofs.BodyTemplateMain.
+From Soy Require Import Model.AstPrint Spec.ExprSyntax Spec.TextTags Proofs.LexPrintMain Proofs.LexPrintCmd Proofs.CmdParserStripDefs Proofs.LexBodyTags Proofs.BodyTagsMain.
 Open Scope N_scope.
 
 (* The loop of parse/rawtext.go returns exactly the Spec's normalisation, under
@@ -469,5 +470,70 @@ Proof.
   { apply Forall_forall. intros sg Hin. unfold c15_ex_body in Hin. cbn [snd In] in Hin.
     repeat (destruct Hin as [<-|Hin]; [split; [first [solve [left; vm_compute; auto 12] | apply cmd_ok_lit; intros r; vm_compute; reflexivity]|split; [apply Hplain; vm_compute; reflexivity|vm_compute; reflexivity]]|]).
     contradiction. }
+  split; [vm_compute; reflexivity|]. split; [vm_compute; reflexivity|]. vm_compute. reflexivity.
+Qed.
+
+(* ---- body_text_spec with PRINT COMMANDS among the tags (Spec/TextTags.v) ----
+   T0 tag1 T1 ... tagn Tn where every tag is a special-character command, a literal block, or a print command
+   standing in the source as the text PrintNode.String() writes ({$x.k|d:1}); the print command n is well-formed
+   and lexically well-formed (wf_print, lex_ok_print: C17's hypotheses); the stretches are plain bytes that may
+   contain comments, under the Spec's condition that no "//" comment is open where a tag begins.  Scanner model
+   on the whole text, then the model of parse.SoyFile under its own budget (inlen = len(text); the nested
+   scanner is any scanner with well-formed items, never started on such a body): a list node whose children READ
+   (c15_view0, positions erased by cps_strip) as the Spec says: the text before the first print command, then per
+   print command its tree up to positions and the text up to the next one, where "text" is body_text of the
+   stretches (a print command is an unflagged end like every tag; "//" behind its "}" is text) and the
+   characters of the text tags in between.  So a print command is a neighbour of text like any other tag, and
+   the children are exactly raw-text nodes and these print nodes, in order.
+   Proof (Proofs/LexBodyTags.v, ParseBodyTags.v, BodyTagsMain.v): scanner per tag (lex_print for the expression);
+   parser on the items with the print commands' positions erased, where beginTag's implicit-print case is C17's
+   rule Tag_print at ONE budget for all levels: out of budget, or the Spec's reading; the totality of the entry
+   point (C05) excludes the first; the position independence of successful runs (cps_body) brings the result
+   back to the scanner's own items.  Other commands (if, for, msg, call ...) as neighbours: C15_stretch_any_neighbours. *)
+Theorem C15_body_text_print_tags_spec : forall lexq unq T0 rest out,
+  lexq_wf lexq -> c15_body_ok print_node T0 rest -> c15_lex_oks rest -> c15_body_out T0 rest = Some out ->
+  exists items pos nodes st,
+    lex_items is_letter_tbl is_digit_tbl (lex_budget (c15_body_src T0 rest)) false (c15_body_src T0 rest) = Ok items /\
+    po_result (soy_file (N.of_nat (length (c15_body_src T0 rest))) lexq unq items) = POk (NList pos nodes) st /\
+    c15_view0 (map cps_strip nodes) = out.
+Proof.
+  intros lexq unq T0 rest out Hq. destruct tables_ascii as [Hl Hd]. destruct tables_eof as [El Ed].
+  exact (body_tags_impl_spec is_letter_tbl is_digit_tbl Hl Hd El Ed lexq unq Hq T0 rest out).
+Qed.
+Print Assumptions C15_body_text_print_tags_spec.
+
+(* non-vacuity: text with comments around two print commands and a {sp}; "//" behind the "}" of a print command
+   is text; the reading is computed by the models and is the Spec's *)
+Definition c15_ex_tags : bstr * list c15_tseg :=
+  (b " a //c" ++ [10],
+   [(C15Print (NPrint 0 (NDataRef 0 (b "x") []) []) (b "{$x}"), b "//t" ++ [10] ++ b " b ");
+    (C15Text (b "sp", [32]), b "/*z*/ c" ++ [10]);
+    (C15Print (NPrint 0 (NDataRef 0 (b "y") [NAccKey 0 false (b "k")]) [NDirective 0 (b "d") [NInt 0 1]]) (b "{$y.k|d:1}"), b " e //open")]).
+Example C15_ex_body_print_tags :
+  c15_body_ok print_node (fst c15_ex_tags) (snd c15_ex_tags) /\ c15_lex_oks (snd c15_ex_tags) /\
+  c15_body_src (fst c15_ex_tags) (snd c15_ex_tags) = b " a //c" ++ [10] ++ b "{$x}//t" ++ [10] ++ b " b {sp}/*z*/ c" ++ [10] ++ b "{$y.k|d:1} e //open" /\
+  c15_body_out (fst c15_ex_tags) (snd c15_ex_tags) =
+    Some (b " a", [(NPrint 0 (NDataRef 0 (b "x") []) [], b "//t b  c");
+                   (NPrint 0 (NDataRef 0 (b "y") [NAccKey 0 false (b "k")]) [NDirective 0 (b "d") [NInt 0 1]], b " e")]) /\
+  match lex_items is_letter_tbl is_digit_tbl (lex_budget (c15_body_src (fst c15_ex_tags) (snd c15_ex_tags))) false (c15_body_src (fst c15_ex_tags) (snd c15_ex_tags)) with
+  | Ok items =>
+      match po_result (soy_file 100 (fun _ => []) (fun _ => None) items) with
+      | POk (NList _ nodes) _ => Some (c15_view0 (map cps_strip nodes)) = c15_body_out (fst c15_ex_tags) (snd c15_ex_tags)
+      | _ => False
+      end
+  | _ => False
+  end.
+Proof.
+  assert (Hplain : forall s : bstr, forallb (fun c => negb (c =? 0) && negb (c =? 123) && negb (c =? 125)) s = true ->
+                   Forall (fun c => c <> 0 /\ c <> 123 /\ c <> 125) s).
+  { intros s H. apply Forall_forall. intros c Hc. rewrite forallb_forall in H. specialize (H c Hc). lia. }
+  split.
+  { unfold c15_body_ok, c15_ex_tags. cbn [fst snd c15_rest_ok c15_tag_ok].
+    repeat split; try (apply Hplain; vm_compute; reflexivity); try (intros _; vm_compute; reflexivity); try (intros H; discriminate H);
+      try (vm_compute; reflexivity); try exact I.
+    left. vm_compute. auto 12. }
+  split.
+  { unfold c15_lex_oks, c15_ex_tags. cbn [snd]. repeat constructor; cbn [fst].
+    exists 100, []. repeat split; try reflexivity; lia. }
   split; [vm_compute; reflexivity|]. split; [vm_compute; reflexivity|]. vm_compute. reflexivity.
 Qed.
